@@ -26,7 +26,7 @@ func init() {
 		Expl: "Decides, over the state tables, the SSA of the swap service and of package peersync: " +
 			"(R1) in every maker table the success edge of every state that builds the CSV spend enters a state whose action tree records swap.PeerNodeId with Policy.AddToSuspiciousPeerList, unconditionally (the call lies on every path of its action), and such a state has no other in-edge; " +
 			"(R2) every way a swap with a peer can start passes the suspicious test on that very peer, with the failing edge refusing: (a) in tables of the responder role every first state from which an invoice/payment/funding state is reachable delegates to its inner action only under `!IsPeerSuspicious(swap.PeerNodeId)`, the other edge returns only the failure event and the failure edge of the table reaches no such state; PeerNodeId is written only from a constructor parameter; (b) every creation site of an initiator-role machine registers it (lockSwap) and starts it (SendEvent) only under `!IsPeerSuspicious(peer)` for the peer the machine is built for; (c) in peersync every call that sends a capability message (through the sender function value, the sender method, or Lightning.SendCustomMessage directly) and every SavePeerState of a peer that received a capability from a message is cut off from the entry by the edges `guard.Suspicious(same peer) == false` / `guard == nil`; " +
-			"(R3) every implementation of PeerGuard.Suspicious answers with Policy.IsPeerSuspicious of its argument (false only without a policy), and both daemons hand the one policy object created from the policy file to the swap services and to peersync, which builds its guard from it. Quantified over all tables, states, edges, creation sites and send/store sites, i.e. over all later requests, initiations and peer-sync messages.",
+			"(R3) every implementation of PeerGuard.Suspicious answers with Policy.IsPeerSuspicious of its argument (false only without a policy), and both daemons hand the one policy object created from the policy file to the swap services and to peersync, which builds its guard from it; IsPeerSuspicious reads the list whose ini key the quarantine writes, and every rewrite of the policy file issued by a *Policy method deletes lines matched on an ini key (a rewrite handed only the bare pubkey with no key known to the helper would delete the peer's suspicious_peers line as a side effect; that the helper compares whole lines is C25.R3). Tests are recognised directly, through in-module helpers whose tested outcome implies them (bool or error result), through short-circuit values kept in locals, and in every caller of an unexported function; uninterpreted shapes end as undecided. Quantified over all tables, states, edges, creation sites and send/store sites, i.e. over all later requests, initiations and peer-sync messages.",
 		NotD: "That the add reaches the file (C25.R2) when the node runs without a policy file path: AddToSuspiciousPeerList then returns ErrNoPolicyFile, which the action logs and ignores (info under R1). Swaps already running with the peer when it is quarantined. Peer identity spoofing below the transport. A crash between the CSV spend and the terminal state (C15/C16).",
 		Run:  runC26,
 	})
@@ -144,6 +144,359 @@ func c26fieldStored(fa *ssa.FieldAddr) bool {
 	return false
 }
 
+// ---- helper transparency: bindings, result cases, facts implied by helper outcomes ------------
+
+// c26bind binds the parameters of fn to the argument values of one call (in the
+// frame described by up).
+type c26bind struct {
+	fn   *ssa.Function
+	args []ssa.Value
+	up   *c26bind
+}
+
+// c26desc names a value by its root (a value of the outermost frame) and the
+// chain of fields selected from it.
+type c26desc struct {
+	root  ssa.Value
+	chain []string
+}
+
+func (d c26desc) String(w *an.World) string {
+	s := w.Term(d.root)
+	for _, f := range d.chain {
+		s += ">" + f
+	}
+	return s
+}
+
+// c26resolve follows parameters into the arguments of the binding and field
+// loads down to the base value.
+func c26resolve(v ssa.Value, b *c26bind, depth int) c26desc {
+	v = c26strip(v)
+	if depth > 12 {
+		return c26desc{root: v}
+	}
+	switch y := v.(type) {
+	case *ssa.Parameter:
+		for bb := b; bb != nil; bb = bb.up {
+			if y.Parent() != bb.fn {
+				continue
+			}
+			for i, q := range bb.fn.Params {
+				if q == y && i < len(bb.args) {
+					return c26resolve(bb.args[i], bb.up, depth+1)
+				}
+			}
+		}
+	case *ssa.UnOp:
+		if y.Op != token.MUL {
+			break
+		}
+		switch a := y.X.(type) {
+		case *ssa.FieldAddr:
+			d := c26resolve(a.X, b, depth+1)
+			d.chain = append(append([]string{}, d.chain...), an.FieldName(a.X.Type(), a.Field))
+			return d
+		case *ssa.Alloc:
+			// a struct parameter spilled into a local: one whole-value store
+			var whole []ssa.Value
+			if a.Referrers() != nil {
+				for _, r := range *a.Referrers() {
+					if st, ok := r.(*ssa.Store); ok && st.Addr == a {
+						whole = append(whole, st.Val)
+					}
+				}
+			}
+			if len(whole) == 1 {
+				return c26resolve(whole[0], b, depth+1)
+			}
+		}
+	case *ssa.FieldAddr:
+		d := c26resolve(y.X, b, depth+1)
+		d.chain = append(append([]string{}, d.chain...), an.FieldName(y.X.Type(), y.Field))
+		return d
+	case *ssa.Field:
+		d := c26resolve(y.X, b, depth+1)
+		d.chain = append(append([]string{}, d.chain...), an.FieldName(y.X.Type(), y.Field))
+		return d
+	case *ssa.Alloc:
+		var whole []ssa.Value
+		if y.Referrers() != nil {
+			for _, r := range *y.Referrers() {
+				if st, ok := r.(*ssa.Store); ok && st.Addr == y {
+					whole = append(whole, st.Val)
+				}
+			}
+		}
+		if len(whole) == 1 {
+			return c26resolve(whole[0], b, depth+1)
+		}
+	}
+	return c26desc{root: v}
+}
+
+func c26sameDesc(w *an.World, a, b c26desc) bool {
+	if len(a.chain) != len(b.chain) {
+		return false
+	}
+	for i := range a.chain {
+		if a.chain[i] != b.chain[i] {
+			return false
+		}
+	}
+	return c26SameVal(w, a.root, b.root, 0)
+}
+
+type c26retCase struct {
+	val  ssa.Value
+	at   *ssa.BasicBlock
+	edge *an.Edge
+}
+
+func c26retCases(f *ssa.Function, idx int) []c26retCase {
+	var out []c26retCase
+	for _, r := range c26Returns(f) {
+		if idx >= len(r.Results) {
+			continue
+		}
+		out = append(out, c26expandPhi(c26RetVal(r, idx), r.Block(), nil, 0)...)
+	}
+	return out
+}
+
+func c26expandPhi(v ssa.Value, at *ssa.BasicBlock, edge *an.Edge, depth int) []c26retCase {
+	// a defer-spilled or local result: the stores that reach the load
+	if ld, ok := v.(*ssa.UnOp); ok && ld.Op == token.MUL && depth <= 3 {
+		if al, ok := ld.X.(*ssa.Alloc); ok {
+			stores, fromEntry := an.StoresReaching(ld, al)
+			if len(stores) > 0 && !fromEntry {
+				var out []c26retCase
+				for _, st := range stores {
+					out = append(out, c26expandPhi(st.Val, st.Block(), nil, depth+1)...)
+				}
+				return out
+			}
+		}
+	}
+	phi, ok := v.(*ssa.Phi)
+	if !ok || depth > 3 {
+		return []c26retCase{{v, at, edge}}
+	}
+	var out []c26retCase
+	for i, e := range phi.Edges {
+		pred := phi.Block().Preds[i]
+		var ed *an.Edge
+		for j, sc := range pred.Succs {
+			if sc == phi.Block() {
+				ed = &an.Edge{From: pred, Idx: j}
+			}
+		}
+		out = append(out, c26expandPhi(e, pred, ed, depth+1)...)
+	}
+	return out
+}
+
+func c26factsAtCase(w *an.World, f *ssa.Function, rc c26retCase) []an.Fact {
+	var out []an.Fact
+	for _, fa := range w.Facts(f) {
+		if rc.edge != nil && fa.Edge == *rc.edge {
+			out = append(out, fa)
+			continue
+		}
+		if fa.Edge.From != rc.at && an.EdgeDominates(fa.Edge, rc.at) {
+			out = append(out, fa)
+		}
+	}
+	return out
+}
+
+func c26mayBe(w *an.World, f *ssa.Function, rc c26retCase, want string) bool {
+	switch y := rc.val.(type) {
+	case *ssa.Const:
+		if want == "nil" {
+			return y.Value == nil
+		}
+		return y.Value != nil && y.Value.String() == want
+	case *ssa.MakeInterface:
+		return want != "nil"
+	case *ssa.UnOp:
+		if _, isG := y.X.(*ssa.Global); isG && y.Op == token.MUL && want == "nil" {
+			return false
+		}
+	case *ssa.Call:
+		if n := w.Info(y).Name; want == "nil" && (n == "func:errors.New" || n == "func:fmt.Errorf") {
+			return false
+		}
+	}
+	if want == "nil" {
+		t := w.Term(rc.val)
+		for _, fa := range c26factsAtCase(w, f, rc) {
+			if fa.NonNum && fa.Rel == "!=" && ((fa.L == "nil" && fa.R == t) || (fa.R == "nil" && fa.L == t)) {
+				return false
+			}
+		}
+	}
+	return true
+}
+
+// c26impliedBy: facts of helper h that hold whenever its result #idx is want
+// ("nil", "true", "false"). When the only way to produce want is to return a
+// non-constant value v, the synthetic fact "v is want" is included.
+func c26impliedBy(w *an.World, h *ssa.Function, idx int, want string) []an.Fact {
+	var keep []an.Fact
+	first := true
+	nCases := 0
+	var only c26retCase
+	for _, rc := range c26retCases(h, idx) {
+		if !c26mayBe(w, h, rc, want) {
+			continue
+		}
+		nCases++
+		only = rc
+		fs := c26factsAtCase(w, h, rc)
+		if first {
+			keep, first = fs, false
+			continue
+		}
+		var nk []an.Fact
+		for _, k := range keep {
+			for _, g := range fs {
+				if g.Edge == k.Edge {
+					nk = append(nk, k)
+					break
+				}
+			}
+		}
+		keep = nk
+	}
+	if nCases == 1 {
+		if _, isC := only.val.(*ssa.Const); !isC {
+			switch want {
+			case "true", "false":
+				// the returned value may itself be a short-circuit of several conditions
+				if ops, isAnd, ok := an.PhiConjuncts(only.val); ok && ((isAnd && want == "true") || (!isAnd && want == "false")) {
+					for _, o := range ops {
+						keep = append(keep, an.Fact{Cond: o, Rel: want, Atom: w.Term(o)})
+					}
+				} else {
+					keep = append(keep, an.Fact{Cond: only.val, Rel: want, Atom: w.Term(only.val)})
+				}
+			case "nil":
+				keep = append(keep, an.Fact{NonNum: true, Rel: "==", LV: only.val, RV: ssa.NewConst(nil, only.val.Type()), L: w.Term(only.val), R: "nil"})
+			}
+		}
+	}
+	return keep
+}
+
+func c26helperOutcome(w *an.World, f an.Fact) (call *ssa.Call, idx int, want string) {
+	asCall := func(v ssa.Value) (*ssa.Call, int) {
+		switch y := v.(type) {
+		case *ssa.Call:
+			return y, 0
+		case *ssa.Extract:
+			if cl, ok := y.Tuple.(*ssa.Call); ok {
+				return cl, y.Index
+			}
+		}
+		return nil, -1
+	}
+	switch {
+	case f.Rel == "true" || f.Rel == "false":
+		if f.Cond != nil {
+			call, idx = asCall(f.Cond)
+		}
+		want = f.Rel
+	case f.NonNum && f.Rel == "==" && f.LV != nil && f.RV != nil && an.IsNilConst(f.LV):
+		call, idx = asCall(f.RV)
+		want = "nil"
+	case f.NonNum && f.Rel == "==" && f.LV != nil && f.RV != nil && an.IsNilConst(f.RV):
+		call, idx = asCall(f.LV)
+		want = "nil"
+	}
+	if call == nil {
+		return nil, -1, ""
+	}
+	h := w.Info(call).Static
+	if h == nil || !w.InModule(h) || h.Blocks == nil {
+		return nil, -1, ""
+	}
+	return call, idx, want
+}
+
+type c26dfact struct {
+	f    an.Fact
+	b    *c26bind
+	root an.Fact // the fact of the queried function it was derived from
+}
+
+// c26factsFrom expands facts with what the tested outcomes of in-module helpers imply (depth 3).
+func c26factsFrom(w *an.World, facts []an.Fact, base *c26bind) []c26dfact {
+	var out []c26dfact
+	var expand func(f an.Fact, b *c26bind, root an.Fact, depth int)
+	expand = func(f an.Fact, b *c26bind, root an.Fact, depth int) {
+		out = append(out, c26dfact{f, b, root})
+		if depth >= 3 {
+			return
+		}
+		call, idx, want := c26helperOutcome(w, f)
+		if call == nil {
+			return
+		}
+		h := w.Info(call).Static
+		nb := &c26bind{fn: h, args: call.Call.Args, up: b}
+		for _, g := range c26impliedBy(w, h, idx, want) {
+			expand(g, nb, root, depth+1)
+		}
+	}
+	for _, f := range facts {
+		expand(f, base, f, 0)
+	}
+	return out
+}
+
+func c26factsAt(w *an.World, instr ssa.Instruction) []c26dfact {
+	return c26factsFrom(w, w.FactsDominating(instr), nil)
+}
+
+// c26notSuspicious: the fact says that Policy.IsPeerSuspicious(x) is false; x is
+// returned as seen from the queried function.
+func c26notSuspicious(w *an.World, d c26dfact) (c26desc, bool) {
+	if d.f.Rel != "false" || d.f.Cond == nil {
+		return c26desc{}, false
+	}
+	call, ok := d.f.Cond.(*ssa.Call)
+	if !ok {
+		return c26desc{}, false
+	}
+	info := w.Info(call)
+	var arg ssa.Value
+	switch {
+	case info.Name == c26fxIsSuspicious && len(call.Call.Args) == 1:
+		arg = call.Call.Args[0]
+	case info.Static != nil && info.Static.Name() == "IsPeerSuspicious" && w.FnRel(info.Static) == "policy" && len(call.Call.Args) == 2:
+		arg = call.Call.Args[1]
+	default:
+		return c26desc{}, false
+	}
+	return c26resolve(arg, d.b, 0), true
+}
+
+// c26staticCallers: production call sites with the given static callee.
+func c26staticCallers(w *an.World, fn *ssa.Function) []ssa.CallInstruction {
+	var out []ssa.CallInstruction
+	for _, g := range prodFuncs(w) {
+		for _, ci := range an.Calls(g) {
+			if w.Info(ci).Static == fn {
+				out = append(out, ci)
+			}
+		}
+	}
+	return out
+}
+
+func c26exported(fn *ssa.Function) bool { return fn.Object() != nil && fn.Object().Exported() }
+
 // ---- R1 ---------------------------------------------------------------------------------
 
 func c26r1(c *an.Check, ts []*TI) {
@@ -171,6 +524,14 @@ func c26r1(c *an.Check, ts []*TI) {
 				c.Bad("C26.R1", t.key(cs)+" --"+evSucceeded+"--> ?", t.pos(c, cs), "the CSV-spend state has no success edge")
 				continue
 			}
+			if !t.Sum[tgt].HasEffect(fxAddSuspicious) && t.Sum[cs].HasEffect(fxAddSuspicious) {
+				c.Unknown("C26.R1", t.edgeKey(cs, evSucceeded), w.Pos(e.EventPos[evSucceeded]), "the peer is recorded inside the CSV-spend state itself, not in the state entered on success: whether it happens exactly when the spend succeeded is not analysed")
+				continue
+			}
+			if t.Sum[tgt].Unknown && !t.Sum[tgt].HasEffect(fxAddSuspicious) {
+				c.Unknown("C26.R1", t.edgeKey(cs, evSucceeded), w.Pos(e.EventPos[evSucceeded]), "the action tree of "+tgt+" could not be summarised completely")
+				continue
+			}
 			c.Decide(t.Sum[tgt].HasEffect(fxAddSuspicious), "C26.R1", t.edgeKey(cs, evSucceeded), w.Pos(e.EventPos[evSucceeded]),
 				"the state entered after the CSV refund was broadcast records the peer as suspicious",
 				fmt.Sprintf("after the maker reclaimed its funds via CSV the swap enters %s whose action tree %v never calls Policy.AddToSuspiciousPeerList: the peer that let the swap time out is not quarantined and can repeat it", tgt, t.T.States[tgt].ActionNames()))
@@ -191,44 +552,127 @@ func c26r1(c *an.Check, ts []*TI) {
 		}
 	}
 
-	// the action(s): argument and unconditional execution
-	sites := findCallSites(w, fxAddSuspicious)
-	n := 0
-	for _, site := range sites {
-		fn := site.Parent()
-		if w.FnRel(fn) != "swap" {
-			continue
-		}
-		n++
-		cons := w.FuncName(fn) + " call " + strings.TrimPrefix(fxAddSuspicious, "iface:")
-		pos := w.Pos(site.Pos())
-		args := site.Common().Args
-		argOK := false
-		if len(args) == 1 {
-			if ld, ok := c26strip(args[0]).(*ssa.UnOp); ok && ld.Op == token.MUL {
-				if fa, ok := ld.X.(*ssa.FieldAddr); ok && an.FieldName(fa.X.Type(), fa.Field) == "SwapData.PeerNodeId" {
-					if _, isParam := fa.X.(*ssa.Parameter); isParam {
-						argOK = true
-					}
+	// the action(s): argument and unconditional execution, seen from the Execute
+	// of the action (the call itself may sit in a helper)
+	execs := map[*ssa.Function]bool{}
+	for _, t := range mk {
+		for _, s := range t.statesWith(fxAddSuspicious) {
+			for _, fn := range t.Sum[s].Execs {
+				fn = c26unwrap(w, fn)
+				if w.Summary(fn).HasEffect(fxAddSuspicious) {
+					execs[fn] = true
 				}
 			}
 		}
-		c.Decide(argOK, "C26.R1", cons+" argument", pos, "records PeerNodeId of the swap the action runs for", "the recorded id is not the PeerNodeId field of the action's swap: "+w.Term(args[0]))
-		all := true
+	}
+	var efns []*ssa.Function
+	for fn := range execs {
+		efns = append(efns, fn)
+	}
+	sort.Slice(efns, func(i, j int) bool { return w.FuncName(efns[i]) < w.FuncName(efns[j]) })
+	for _, fn := range efns {
+		cons := w.FuncName(fn) + " call " + strings.TrimPrefix(fxAddSuspicious, "iface:")
+		pos := w.Pos(fn.Pos())
+		// argument of every add reachable from the action
+		type addSite struct {
+			site ssa.CallInstruction
+			d    c26desc
+		}
+		var adds []addSite
+		var walk func(f *ssa.Function, b *c26bind, depth int)
+		walk = func(f *ssa.Function, b *c26bind, depth int) {
+			for _, ci := range an.Calls(f) {
+				info := w.Info(ci)
+				if info.Name == fxAddSuspicious && len(ci.Common().Args) == 1 {
+					adds = append(adds, addSite{ci, c26resolve(ci.Common().Args[0], b, 0)})
+					continue
+				}
+				if h := info.Static; h != nil && h != f && w.InModule(h) && depth < 3 && w.Summary(h).HasEffect(fxAddSuspicious) {
+					walk(h, &c26bind{fn: h, args: ci.Common().Args, up: b}, depth+1)
+				}
+			}
+		}
+		walk(fn, nil, 0)
+		argVerdict, argWhy := "ok", ""
+		for _, a := range adds {
+			pos = w.Pos(a.site.Pos())
+			p, isParam := a.d.root.(*ssa.Parameter)
+			ofSwap := isParam && p.Parent() == fn && an.NamedOf(p.Type()) != nil && an.NamedOf(p.Type()).Obj().Name() == "SwapData"
+			switch {
+			case ofSwap && len(a.d.chain) == 1 && a.d.chain[0] == "SwapData.PeerNodeId":
+			case ofSwap && len(a.d.chain) == 1, c26isConstVal(a.d.root):
+				argVerdict, argWhy = "bad", a.d.String(w)
+			default:
+				if argVerdict != "bad" {
+					argVerdict, argWhy = "unknown", a.d.String(w)
+				}
+			}
+		}
+		switch {
+		case len(adds) == 0:
+			c.Unknown("C26.R1", cons+" argument", pos, "the call is not found within three helper levels of the action")
+		case argVerdict == "bad":
+			c.Bad("C26.R1", cons+" argument", pos, "the recorded id is not the PeerNodeId field of the action's swap: "+argWhy)
+		case argVerdict == "unknown":
+			c.Unknown("C26.R1", cons+" argument", pos, "cannot relate the recorded id to the action's swap: "+argWhy)
+		default:
+			c.OK("C26.R1", cons+" argument", pos, "records PeerNodeId of the swap the action runs for")
+		}
+		// every path through the action executes an add (directly or in a helper that always adds)
+		var carriers []ssa.Instruction
+		for _, ci := range an.Calls(fn) {
+			info := w.Info(ci)
+			if info.IsGo || info.IsDefer {
+				continue
+			}
+			if info.Name == fxAddSuspicious || c26alwaysAdds(w, info.Static, 0) {
+				carriers = append(carriers, ci)
+			}
+		}
+		all := len(carriers) > 0
 		for _, r := range c26Returns(fn) {
-			if !an.MustPassInstr(r, []ssa.Instruction{site}) {
+			if !an.MustPassInstr(r, carriers) {
 				all = false
 			}
 		}
 		c.Decide(all, "C26.R1", cons+" unconditional", pos, "every path through the action executes the call", "some path through the action returns without recording the peer")
-		if call, ok := site.(*ssa.Call); ok {
-			if _, fail := an.OkEdges(call); len(fail) > 0 {
-				evs := returnEventsFrom(w, fn, an.ReachBlocks(c26targets(fail), nil, nil))
-				c.Note("C26.R1", cons+" error path", pos, fmt.Sprintf("an error of the add (e.g. ErrNoPolicyFile when the node has no policy file, or 'already marked') continues with %v: the quarantine is then not persisted — not decided", sortedKeysOf(evs)))
+		for _, a := range adds {
+			if call, ok := a.site.(*ssa.Call); ok {
+				if _, fail := an.OkEdges(call); len(fail) > 0 {
+					c.Note("C26.R1", cons+" error path", w.Pos(a.site.Pos()), "an error of the add (e.g. ErrNoPolicyFile when the node has no policy file, or 'already marked') is only logged: the quarantine is then not persisted — not decided")
+				}
 			}
 		}
 	}
-	c.AtLeast("C26.R1", "AddToSuspiciousPeerList call sites in package swap", n, 1)
+	c.AtLeast("C26.R1", "actions that record the suspicious peer", len(efns), 1)
+}
+
+func c26isConstVal(v ssa.Value) bool { _, ok := v.(*ssa.Const); return ok }
+
+// c26alwaysAdds: every path through the in-module helper executes AddToSuspiciousPeerList.
+func c26alwaysAdds(w *an.World, h *ssa.Function, depth int) bool {
+	if h == nil || !w.InModule(h) || h.Blocks == nil || depth > 3 || !w.Summary(h).HasEffect(fxAddSuspicious) {
+		return false
+	}
+	var carriers []ssa.Instruction
+	for _, ci := range an.Calls(h) {
+		info := w.Info(ci)
+		if info.IsGo || info.IsDefer {
+			continue
+		}
+		if info.Name == fxAddSuspicious || (info.Static != h && c26alwaysAdds(w, info.Static, depth+1)) {
+			carriers = append(carriers, ci)
+		}
+	}
+	if len(carriers) == 0 {
+		return false
+	}
+	for _, r := range c26Returns(h) {
+		if !an.MustPassInstr(r, carriers) {
+			return false
+		}
+	}
+	return true
 }
 
 func c26targets(es []an.Edge) []*ssa.BasicBlock {
@@ -353,7 +797,6 @@ func c26r2a(c *an.Check, ts []*TI) {
 			// walk the wrapper chain
 			var gateFn *ssa.Function
 			var gateFact an.Fact
-			var deleg ssa.CallInstruction
 			why := ""
 			for _, fn := range t.Sum[s].Execs {
 				fn = c26unwrap(w, fn)
@@ -365,17 +808,20 @@ func c26r2a(c *an.Check, ts []*TI) {
 				all := true
 				for _, dc := range dcalls {
 					found := false
-					for _, f := range w.FactsDominating(dc) {
-						call := c26condCall(f)
-						if call != nil && f.Rel == "false" && w.Info(call).Name == c26fxIsSuspicious && len(call.Call.Args) == 1 && c26swapPeerArg(call.Call.Args[0]) {
+					for _, d := range c26factsAt(w, dc) {
+						desc, ok := c26notSuspicious(w, d)
+						if !ok {
+							continue
+						}
+						p, isParam := desc.root.(*ssa.Parameter)
+						if isParam && p.Parent() == fn && len(desc.chain) == 1 && desc.chain[0] == "SwapData.PeerNodeId" {
 							found = true
-							gateFact = f
+							gateFact = d.root
 						}
 					}
 					if !found {
 						all = false
 					}
-					deleg = dc
 				}
 				if all {
 					gateFn = fn
@@ -386,17 +832,28 @@ func c26r2a(c *an.Check, ts []*TI) {
 				if why == "" {
 					why = "no wrapper of the action tree delegates under `!IsPeerSuspicious(swap.PeerNodeId)`"
 				}
+				// the refusal may sit in front of the machine: at every creation site of this table's machine
+				if v, cw := c26creationGuarded(c, t); v == "ok" {
+					c.OK("C26.R2", cons, t.pos(c, s), "no gate inside the machine, but every creation site of the machine is dominated by !IsPeerSuspicious(peer): "+cw)
+					continue
+				} else if v == "unknown" {
+					c.Unknown("C26.R2", cons, t.pos(c, s), fmt.Sprintf("no gate found inside the machine (%s) and the creation sites cannot be decided: %s", why, cw))
+					continue
+				}
 				c.Bad("C26.R2", cons, t.pos(c, s), fmt.Sprintf("a request of a quarantined peer reaches %s: %s (action tree %v)", where, why, t.T.States[s].ActionNames()))
 				continue
 			}
-			_ = deleg
 			// the suspicious edge only fails
 			other := an.Edge{From: gateFact.Edge.From, Idx: 1 - gateFact.Edge.Idx}
 			evs := returnEventsFrom(w, gateFn, an.ReachBlocks([]*ssa.BasicBlock{other.To()}, nil, nil))
 			onlyFail := len(evs) > 0
+			uninterpreted := false
 			for e := range evs {
 				if e != evFailed {
 					onlyFail = false
+				}
+				if e == "?" {
+					uninterpreted = true
 				}
 			}
 			failTgt, hasFail := t.T.States[s].Events[evFailed]
@@ -405,6 +862,8 @@ func c26r2a(c *an.Check, ts []*TI) {
 				leak, _ = c26hasMoney(t, failTgt)
 			}
 			switch {
+			case !onlyFail && (uninterpreted || len(evs) == 0):
+				c.Unknown("C26.R2", cons, w.Pos(gateFn.Pos()), fmt.Sprintf("the events returned on the branch taken for a suspicious peer in %s cannot be resolved (%v)", w.FuncName(gateFn), sortedKeysOf(evs)))
 			case !onlyFail:
 				c.Bad("C26.R2", cons, w.Pos(gateFn.Pos()), fmt.Sprintf("the branch taken for a suspicious peer in %s returns %v, not only %s", w.FuncName(gateFn), sortedKeysOf(evs), evFailed))
 			case !hasFail:
@@ -429,11 +888,15 @@ func c26r2a(c *an.Check, ts []*TI) {
 		nw++
 		_, isParam := c26strip(st.Val).(*ssa.Parameter)
 		_, isAlloc := st.Addr.(*ssa.FieldAddr).X.(*ssa.Alloc)
-		c.Decide(isParam && isAlloc, "C26.R2", w.FuncName(fn)+" store SwapData.PeerNodeId", w.Pos(st.Pos()),
-			"peer id set once, from a constructor parameter, on a new SwapData",
-			"SwapData.PeerNodeId (the id the gate tests and the quarantine records) is written outside a constructor or from something else than a parameter: "+w.Term(st.Val))
+		if isParam && isAlloc {
+			c.OK("C26.R2", w.FuncName(fn)+" store SwapData.PeerNodeId", w.Pos(st.Pos()), "peer id set once, from a constructor parameter, on a new SwapData")
+		} else {
+			// a helper filling a new SwapData, or a normalised value: not interpreted
+			c.Unknown("C26.R2", w.FuncName(fn)+" store SwapData.PeerNodeId", w.Pos(st.Pos()),
+				"SwapData.PeerNodeId (the id the gate tests and the quarantine records) is written in a form that is not `new SwapData{PeerNodeId: parameter}`: cannot decide that it is the transport-level peer: "+w.Term(st.Val))
+		}
 	}
-	c.AtLeast("C26.R2", "writers of SwapData.PeerNodeId", nw, 2)
+	c.AtLeast("C26.R2", "writers of SwapData.PeerNodeId", nw, 1)
 }
 
 // ---- R2b: creation sites of initiator machines ---------------------------------------------
@@ -477,77 +940,168 @@ func c26peerParam(w *an.World, fn *ssa.Function, depth int) int {
 	return -1
 }
 
+// c26guardedUp: instr (in its function) only executes after !IsPeerSuspicious(peer);
+// the test may sit in the function, in a helper whose outcome is tested, or in
+// every caller of an unexported function. "ok" | "bad" | "unknown".
+func c26guardedUp(w *an.World, instr ssa.Instruction, peer ssa.Value, depth int) (string, string) {
+	fn := instr.Parent()
+	want := c26resolve(peer, nil, 0)
+	for _, d := range c26factsAt(w, instr) {
+		if desc, ok := c26notSuspicious(w, d); ok && c26sameDesc(w, desc, want) {
+			return "ok", ""
+		}
+	}
+	if fn.Parent() != nil {
+		return "unknown", "inside a closure"
+	}
+	// the peer is a parameter (or a field of one) of an unexported function: the callers may test
+	p, isParam := want.root.(*ssa.Parameter)
+	if !isParam || p.Parent() != fn {
+		return "bad", "the peer is computed in " + w.FuncName(fn) + " and not tested there"
+	}
+	if c26exported(fn) {
+		return "bad", "the exported function " + w.FuncName(fn) + " does not test its peer"
+	}
+	if depth > 2 {
+		return "unknown", "call chain too deep"
+	}
+	idx := -1
+	for i, q := range fn.Params {
+		if q == p {
+			idx = i
+		}
+	}
+	sites := c26staticCallers(w, fn)
+	if len(sites) == 0 || idx < 0 {
+		return "unknown", w.FuncName(fn) + " is unexported and has no static caller"
+	}
+	res, why := "ok", ""
+	for _, s := range sites {
+		if idx >= len(s.Common().Args) {
+			return "unknown", "argument not found"
+		}
+		arg := s.Common().Args[idx]
+		if len(want.chain) > 0 {
+			return "unknown", "the peer is a field of a parameter; callers not analysed"
+		}
+		v, w2 := c26guardedUp(w, s, arg, depth+1)
+		if v == "bad" {
+			return "bad", "called from " + w.FuncName(s.Parent()) + ": " + w2
+		}
+		if v != "ok" {
+			res, why = "unknown", w2
+		}
+	}
+	return res, why
+}
+
+// c26creationSites evaluates lockSwap/SendEvent on the machines created by the constructor of t.
+type c26effect struct {
+	fn     *ssa.Function
+	eff    ssa.CallInstruction
+	callee *ssa.Function
+	ctor   *ssa.Function
+	peer   ssa.Value
+}
+
+func c26creationEffects(c *an.Check, t *TI) (effs []c26effect, nSites int, err string) {
+	w := c.W
+	lock := w.Func("swap", "(*SwapService).lockSwap")
+	sendEv := w.Func("swap", "(*SwapStateMachine).SendEvent")
+	if lock == nil || sendEv == nil {
+		return nil, 0, "(*SwapService).lockSwap / (*SwapStateMachine).SendEvent do not resolve"
+	}
+	ctor := w.Func("swap", t.T.Constructor)
+	if ctor == nil {
+		return nil, 0, fmt.Sprintf("constructor %q of table %s does not resolve", t.T.Constructor, t.Name())
+	}
+	pi := c26peerParam(w, ctor, 0)
+	if pi < 0 {
+		return nil, 0, "cannot tell which parameter of " + w.FuncName(ctor) + " becomes SwapData.PeerNodeId"
+	}
+	for _, ci := range c26staticCallers(w, ctor) {
+		fn := ci.Parent()
+		nSites++
+		peer := ci.Common().Args[pi]
+		fsm, _ := ci.(*ssa.Call)
+		for _, eff := range an.Calls(fn) {
+			callee := w.Info(eff).Static
+			if callee != lock && callee != sendEv {
+				continue
+			}
+			uses := false
+			for _, a := range eff.Common().Args {
+				if fsm != nil && c26strip(a) == ssa.Value(fsm) {
+					uses = true
+				}
+			}
+			if uses {
+				effs = append(effs, c26effect{fn, eff, callee, ctor, peer})
+			}
+		}
+	}
+	return effs, nSites, ""
+}
+
+// c26creationGuarded: every registration/start of a machine of table t is dominated by the suspicious test.
+func c26creationGuarded(c *an.Check, t *TI) (string, string) {
+	effs, n, err := c26creationEffects(c, t)
+	if err != "" {
+		return "unknown", err
+	}
+	if n == 0 || len(effs) == 0 {
+		return "bad", "no creation site with lockSwap/SendEvent found"
+	}
+	res, why := "ok", ""
+	for _, e := range effs {
+		v, w2 := c26guardedUp(c.W, e.eff, e.peer, 0)
+		if v == "bad" {
+			return "bad", c.W.FuncName(e.fn) + ": " + w2
+		}
+		if v != "ok" {
+			res, why = "unknown", w2
+		}
+	}
+	return res, why
+}
+
 func c26r2b(c *an.Check, ts []*TI) {
 	w := c.W
 	sendRole, ok := c26roleConst(c, "SWAPROLE_SENDER")
 	if !ok {
 		return
 	}
-	lock := w.Func("swap", "(*SwapService).lockSwap")
-	sendEv := w.Func("swap", "(*SwapStateMachine).SendEvent")
-	if lock == nil || sendEv == nil {
-		c.Anchor("(*SwapService).lockSwap / (*SwapStateMachine).SendEvent do not resolve")
-		return
-	}
-	nSites, nEff, nTables := 0, 0, 0
+	nSites, nTables := 0, 0
+	semantic := map[string]bool{}
 	for _, t := range ts {
 		if t.T.Role != sendRole {
 			continue
 		}
 		nTables++
-		ctor := w.Func("swap", t.T.Constructor)
-		if ctor == nil {
-			c.Anchor("constructor %q of table %s does not resolve", t.T.Constructor, t.Name())
+		effs, n, err := c26creationEffects(c, t)
+		if err != "" {
+			c.Unknown("C26.R2", t.Name()+" creation sites", w.Pos(t.T.Pos), err)
 			continue
 		}
-		pi := c26peerParam(w, ctor, 0)
-		if pi < 0 {
-			c.Unknown("C26.R2", w.FuncName(ctor)+" peer parameter", w.Pos(ctor.Pos()), "cannot tell which parameter of the constructor becomes SwapData.PeerNodeId")
-			continue
-		}
-		for _, fn := range prodFuncs(w) {
-			for _, ci := range an.Calls(fn) {
-				if w.Info(ci).Static != ctor {
-					continue
-				}
-				nSites++
-				peer := ci.Common().Args[pi]
-				fsm, _ := ci.(*ssa.Call)
-				for _, eff := range an.Calls(fn) {
-					callee := w.Info(eff).Static
-					if callee != lock && callee != sendEv {
-						continue
-					}
-					// only effects on the machine created here
-					uses := false
-					for _, a := range eff.Common().Args {
-						if fsm != nil && c26strip(a) == ssa.Value(fsm) {
-							uses = true
-						}
-					}
-					if !uses {
-						continue
-					}
-					nEff++
-					cons := w.FuncName(fn) + " call " + callee.Name() + " on " + ctor.Name()
-					facts := w.FactsDominating(eff)
-					good := false
-					for _, f := range facts {
-						call := c26condCall(f)
-						if call != nil && f.Rel == "false" && w.Info(call).Name == c26fxIsSuspicious && len(call.Call.Args) == 1 && c26SameVal(w, call.Call.Args[0], peer, 0) {
-							good = true
-						}
-					}
-					c.Decide(good, "C26.R2", cons, w.Pos(eff.Pos()),
-						"dominated by !IsPeerSuspicious(peer) for the peer the machine is created for",
-						"the node can start a swap with a quarantined peer: this call is not dominated by `!policy.IsPeerSuspicious(p)` with p the peer the state machine is created for ("+w.Term(peer)+"). Facts that hold: "+an.DescribeFacts(facts))
-				}
+		nSites += n
+		for _, e := range effs {
+			semantic[t.Name()+"/"+e.callee.Name()] = true
+			cons := w.FuncName(e.fn) + " call " + e.callee.Name() + " on " + e.ctor.Name()
+			v, why := c26guardedUp(w, e.eff, e.peer, 0)
+			switch v {
+			case "ok":
+				c.OK("C26.R2", cons, w.Pos(e.eff.Pos()), "dominated by !IsPeerSuspicious(peer) for the peer the machine is created for")
+			case "bad":
+				c.Bad("C26.R2", cons, w.Pos(e.eff.Pos()), "the node can start a swap with a quarantined peer: this call is not dominated by `!policy.IsPeerSuspicious(p)` with p the peer the state machine is created for ("+w.Term(e.peer)+"): "+why+". Facts that hold: "+an.DescribeFacts(w.FactsDominating(e.eff)))
+			default:
+				c.Unknown("C26.R2", cons, w.Pos(e.eff.Pos()), "cannot decide whether the call is dominated by the suspicious test on "+w.Term(e.peer)+": "+why)
 			}
 		}
 	}
 	c.AtLeast("C26.R2", "initiator tables", nTables, 2)
 	c.AtLeast("C26.R2", "creation sites of initiator machines", nSites, 2)
-	c.AtLeast("C26.R2", "lockSwap/SendEvent calls at initiator creation sites", nEff, 4)
+	// per initiator table: the machine is registered and started
+	c.AtLeast("C26.R2", "(initiator table, lockSwap|SendEvent) pairs at creation sites", len(semantic), 4)
 }
 
 // ---- R2c: peersync ---------------------------------------------------------------------------
@@ -567,48 +1121,232 @@ func c26isNamed(t types.Type, rel, name string, w *an.World) bool {
 	return ok && r == rel
 }
 
-// c26guarded: site is unreachable from the entry once the edges
-// `Suspicious(peer)==false` and `guard==nil` are removed.
-func c26guarded(w *an.World, site ssa.Instruction, peer ssa.Value) (bool, string) {
-	fn := site.Parent()
-	var cut []an.Edge
-	nFalse := 0
-	var seen []string
+// c26isGuardNil: the fact says that a value of type PeerGuard is nil.
+func c26isGuardNil(w *an.World, f an.Fact) bool {
+	if !f.NonNum || f.Rel != "==" || f.LV == nil || f.RV == nil {
+		return false
+	}
+	var other ssa.Value
+	switch {
+	case an.IsNilConst(f.LV):
+		other = f.RV
+	case an.IsNilConst(f.RV):
+		other = f.LV
+	}
+	return other != nil && c26isNamed(other.Type(), "peersync", "PeerGuard", w)
+}
+
+// c26nilTestPred: pred ends in an If on `guard != nil` / `guard == nil`.
+func c26nilTestPred(w *an.World, pred *ssa.BasicBlock) bool {
+	if len(pred.Instrs) == 0 {
+		return false
+	}
+	i, ok := pred.Instrs[len(pred.Instrs)-1].(*ssa.If)
+	if !ok {
+		return false
+	}
+	t, f := w.FactsOfIf(i)
+	return c26isGuardNil(w, t) || c26isGuardNil(w, f)
+}
+
+// c26okEdges: the CFG edges of fn on which "guard == nil or guard.Suspicious(want) == false" is known.
+// nTests counts the tests on the wanted peer, others lists the peers of tests on something else.
+func c26okEdges(w *an.World, fn *ssa.Function, want c26desc, b *c26bind, depth int) (cut []an.Edge, nTests int, others []string) {
+	matches := func(arg ssa.Value) bool {
+		return c26sameDesc(w, c26resolve(arg, b, 0), want)
+	}
 	for _, ci := range an.Calls(fn) {
 		call, ok := ci.(*ssa.Call)
-		if !ok || w.Info(ci).Name != c26fxGuardSusp || len(call.Call.Args) != 1 {
+		if !ok {
 			continue
 		}
-		seen = append(seen, w.Term(call.Call.Args[0]))
-		if !c26SameVal(w, call.Call.Args[0], peer, 0) {
+		info := w.Info(ci)
+		if info.Name == c26fxGuardSusp && len(call.Call.Args) == 1 {
+			if !matches(call.Call.Args[0]) {
+				others = append(others, w.Term(call.Call.Args[0]))
+				continue
+			}
+			nTests++
+			_, f := an.BoolEdges(call)
+			cut = append(cut, f...)
+			// the test folded into a local: `q := guard != nil && guard.Suspicious(x)` (q false is the
+			// disjunction) and `ok := guard == nil || !guard.Suspicious(x)` (ok true is the disjunction)
+			var vals []ssa.Value
+			vals = append(vals, call)
+			if call.Referrers() != nil {
+				for _, r := range *call.Referrers() {
+					if u, isNot := r.(*ssa.UnOp); isNot && u.Op == token.NOT {
+						vals = append(vals, u)
+					}
+				}
+			}
+			for _, v := range vals {
+				if v.Referrers() == nil {
+					continue
+				}
+				_, negated := v.(*ssa.UnOp)
+				for _, r := range *v.Referrers() {
+					phi, isPhi := r.(*ssa.Phi)
+					if !isPhi {
+						continue
+					}
+					ops, isAnd, ok := an.PhiConjuncts(phi)
+					if !ok || len(ops) != 1 || ops[0] != v || isAnd == negated {
+						continue
+					}
+					onlyNil := true
+					for i, e := range phi.Edges {
+						if _, isC := e.(*ssa.Const); isC && !c26nilTestPred(w, phi.Block().Preds[i]) {
+							onlyNil = false
+						}
+					}
+					if !onlyNil {
+						continue
+					}
+					pt, pf := an.BoolEdges(phi)
+					if isAnd {
+						cut = append(cut, pf...)
+					} else {
+						cut = append(cut, pt...)
+					}
+				}
+			}
 			continue
 		}
-		_, f := an.BoolEdges(call)
-		nFalse += len(f)
-		cut = append(cut, f...)
+		// a helper whose boolean answer implies the disjunction
+		h := info.Static
+		if h == nil || !w.InModule(h) || h.Blocks == nil || depth >= 2 || h == fn {
+			continue
+		}
+		res := h.Signature.Results()
+		if res.Len() != 1 {
+			continue
+		}
+		if bt, isB := res.At(0).Type().Underlying().(*types.Basic); !isB || bt.Kind() != types.Bool {
+			continue
+		}
+		nb := &c26bind{fn: h, args: call.Call.Args, up: b}
+		for _, wantRes := range []string{"false", "true"} {
+			if !c26helperImpliesOK(w, h, want, nb, wantRes, depth+1) {
+				continue
+			}
+			nTests++
+			t, f := an.BoolEdges(call)
+			if wantRes == "false" {
+				cut = append(cut, f...)
+			} else {
+				cut = append(cut, t...)
+			}
+		}
 	}
 	for _, f := range w.Facts(fn) {
-		if !f.NonNum || f.Rel != "==" {
-			continue
-		}
-		var other ssa.Value
-		switch {
-		case an.IsNilConst(f.LV):
-			other = f.RV
-		case an.IsNilConst(f.RV):
-			other = f.LV
-		}
-		if other != nil && c26isNamed(other.Type(), "peersync", "PeerGuard", w) {
+		if c26isGuardNil(w, f) {
 			cut = append(cut, f.Edge)
 		}
 	}
-	if nFalse == 0 {
-		return false, fmt.Sprintf("no Suspicious test on this peer (tests on: %v)", seen)
+	return cut, nTests, others
+}
+
+// c26helperImpliesOK: whenever helper h answers wantRes, the guard is nil or the wanted peer is not suspicious.
+func c26helperImpliesOK(w *an.World, h *ssa.Function, want c26desc, b *c26bind, wantRes string, depth int) bool {
+	cut, n, _ := c26okEdges(w, h, want, b, depth)
+	cases := 0
+	for _, rc := range c26retCases(h, 0) {
+		if !c26mayBe(w, h, rc, wantRes) {
+			continue
+		}
+		cases++
+		// the answer is the test itself
+		v := rc.val
+		neg := false
+		if u, ok := v.(*ssa.UnOp); ok && u.Op == token.NOT {
+			v, neg = u.X, true
+		}
+		if call, ok := v.(*ssa.Call); ok && w.Info(call).Name == c26fxGuardSusp && len(call.Call.Args) == 1 &&
+			c26sameDesc(w, c26resolve(call.Call.Args[0], b, 0), want) && ((wantRes == "false") != neg) {
+			continue
+		}
+		if n == 0 {
+			return false
+		}
+		onEdge := false
+		if rc.edge != nil {
+			for _, e := range cut {
+				if e == *rc.edge {
+					onEdge = true
+				}
+			}
+		}
+		if onEdge || (rc.at != h.Blocks[0] && an.EdgesDominate(cut, rc.at)) {
+			continue
+		}
+		return false
+	}
+	return cases > 0
+}
+
+// c26guarded: site is unreachable from the entry of its function once the edges
+// `Suspicious(peer)==false` and `guard==nil` are removed. "ok" | "no" | "unknown".
+func c26guarded(w *an.World, site ssa.Instruction, want c26desc) (string, string) {
+	fn := site.Parent()
+	cut, n, others := c26okEdges(w, fn, want, nil, 0)
+	if n == 0 {
+		return "no", fmt.Sprintf("no Suspicious test on this peer (tests on: %v)", others)
 	}
 	if site.Block() == fn.Blocks[0] {
-		return false, "the call sits in the entry block"
+		return "no", "the call sits in the entry block"
 	}
-	return an.EdgesDominate(cut, site.Block()), ""
+	if an.EdgesDominate(cut, site.Block()) {
+		return "ok", ""
+	}
+	return "no", "the test on this peer does not lie on every path"
+}
+
+// c26sinkVerdict: the sink is guarded in its function, or in every caller chain of an
+// unexported function up to an entry point. "ok" | "bad" | "unknown".
+func c26sinkVerdict(w *an.World, site ssa.Instruction, want c26desc, depth int) (string, string) {
+	v, why := c26guarded(w, site, want)
+	if v == "ok" {
+		return "ok", ""
+	}
+	fn := site.Parent()
+	p, isParam := want.root.(*ssa.Parameter)
+	if !isParam || p.Parent() != fn {
+		// the peer value is produced inside the function: no caller can have tested it
+		return "bad", why
+	}
+	if c26exported(fn) && fn.Parent() == nil {
+		return "bad", why + "; the exported function " + w.FuncName(fn) + " can be called with any peer"
+	}
+	if depth > 3 {
+		return "unknown", "call chain too deep"
+	}
+	idx := -1
+	for i, q := range fn.Params {
+		if q == p {
+			idx = i
+		}
+	}
+	sites := c26staticCallers(w, fn)
+	if len(sites) == 0 || idx < 0 {
+		return "unknown", w.FuncName(fn) + " has no static caller (used as a function value?): " + why
+	}
+	res, rwhy := "ok", ""
+	for _, s := range sites {
+		if idx >= len(s.Common().Args) {
+			return "unknown", "argument not found at a call of " + w.FuncName(fn)
+		}
+		up := c26resolve(s.Common().Args[idx], nil, 0)
+		up.chain = append(append([]string{}, up.chain...), want.chain...)
+		sv, sw := c26sinkVerdict(w, s, up, depth+1)
+		if sv == "bad" {
+			return "bad", "reached from " + w.FuncName(s.Parent()) + " without a test: " + sw
+		}
+		if sv != "ok" {
+			res, rwhy = "unknown", sw
+		}
+	}
+	return res, rwhy
 }
 
 // c26peerIDOf: the PeerID a value stands for: a PeerID itself, or a *Peer obtained
@@ -696,7 +1434,7 @@ func c26r2c(c *an.Check) {
 					continue
 				}
 				peer := ci.Common().Args[k]
-				if ok, _ := c26guarded(w, ci, peer); !ok {
+				if v, _ := c26guarded(w, ci, c26resolve(peer, nil, 0)); v != "ok" {
 					if i := paramIdx(fn, peer); i >= 0 && fn.Parent() == nil {
 						if _, had := sender[fn]; !had {
 							sender[fn] = i
@@ -716,7 +1454,7 @@ func c26r2c(c *an.Check) {
 			if k, ok := sender[info.Static]; ok && info.Static != fn {
 				peer := ci.Common().Args[k]
 				if _, fwd := sender[fn]; fwd && paramIdx(fn, peer) == sender[fn] {
-					if ok, _ := c26guarded(w, ci, peer); !ok {
+					if v, _ := c26guarded(w, ci, c26resolve(peer, nil, 0)); v != "ok" {
 						continue // pure forwarder: its own call sites are the sinks
 					}
 				}
@@ -792,15 +1530,28 @@ func c26r2c(c *an.Check) {
 			nSend++
 		}
 		cons := w.FuncName(fn) + " call " + s.what
-		ok, why := c26guarded(w, s.site, s.peer)
+		v, why := c26sinkVerdict(w, s.site, c26resolve(s.peer, nil, 0), 0)
 		if why != "" {
 			why = " — " + why
 		}
-		c.Decide(ok, "C26.R2", cons, w.Pos(s.site.Pos()),
-			"cut off from the entry by guard.Suspicious(same peer)==false / guard==nil",
-			"peer-sync reaches this call for a quarantined peer: not every path from the function entry passes the false edge of guard.Suspicious on "+w.Term(s.peer)+why)
+		switch v {
+		case "ok":
+			c.OK("C26.R2", cons, w.Pos(s.site.Pos()), "cut off from the entry by guard.Suspicious(same peer)==false / guard==nil (in the function or in every caller)")
+		case "bad":
+			c.Bad("C26.R2", cons, w.Pos(s.site.Pos()), "peer-sync reaches this call for a quarantined peer: not every path from the function entry passes the false edge of guard.Suspicious on "+w.Term(s.peer)+why)
+		default:
+			c.Unknown("C26.R2", cons, w.Pos(s.site.Pos()), "cannot decide whether the call is only reached after guard.Suspicious on "+w.Term(s.peer)+" answered false"+why)
+		}
 	}
-	c.AtLeast("C26.R2", "capability send sites in peersync", nSend, 4)
+	// semantic floor: functions that send (not call sites)
+	sendFns := map[*ssa.Function]bool{}
+	for _, s := range sinks {
+		if !strings.HasPrefix(s.what, "SavePeerState") {
+			sendFns[s.site.Parent()] = true
+		}
+	}
+	_ = nSend
+	c.AtLeast("C26.R2", "functions of peersync that send capability messages", len(sendFns), 3)
 }
 
 // ---- R3 ----------------------------------------------------------------------------------------
@@ -847,10 +1598,16 @@ func c26r3(c *an.Check) {
 		}
 		nImpl++
 		cons := w.FuncName(fn)
-		good := true
-		why := ""
-		for _, r := range c26Returns(fn) {
-			v := c26strip(c26RetVal(r, 0))
+		verdict, why := "ok", ""
+		worse := func(v, y string) {
+			if v == "bad" || (v == "unknown" && verdict == "ok") {
+				if verdict != "bad" {
+					verdict, why = v, y
+				}
+			}
+		}
+		for _, rc := range c26retCases(fn, 0) {
+			v := c26strip(rc.val)
 			if call, ok := v.(*ssa.Call); ok {
 				f := w.Info(call).Static
 				if f != nil && f.Name() == "IsPeerSuspicious" && f.Signature.Recv() != nil && isPolPtr(f.Signature.Recv().Type()) && len(call.Call.Args) == 2 {
@@ -858,33 +1615,58 @@ func c26r3(c *an.Check) {
 					if ss.OnlyFrom(func(s an.Src) bool { return s.Kind == "param" && s.Idx == 1 }) {
 						continue
 					}
-					good, why = false, "asks the policy about "+strings.Join(ss.Names(), ",")+" instead of its argument"
+					if ss.OnlyFrom(func(s an.Src) bool { return s.Kind == "param" || s.Kind == "const" }) {
+						worse("bad", "asks the policy about "+strings.Join(ss.Names(), ",")+" instead of its argument")
+					} else {
+						worse("unknown", "asks the policy about "+strings.Join(ss.Names(), ",")+", which is not recognised as its argument")
+					}
 					continue
 				}
-				good, why = false, "answers with "+w.Term(v)
+				if f != nil && w.FnRel(f) == "policy" && f.Signature.Recv() != nil && isPolPtr(f.Signature.Recv().Type()) {
+					worse("bad", "answers with another policy predicate: "+w.Term(v))
+				} else {
+					worse("unknown", "answers with "+w.Term(v)+", which is not interpreted")
+				}
 				continue
 			}
 			if k, ok := v.(*ssa.Const); ok && k.Value != nil && k.Value.String() == "false" {
 				under := false
-				for _, f := range w.FactsDominatingBlock(r.Block()) {
-					if f.NonNum && f.Rel == "==" && ((an.IsNilConst(f.LV) && isPolPtr(f.RV.Type())) || (an.IsNilConst(f.RV) && isPolPtr(f.LV.Type()))) {
+				for _, f := range c26factsAtCase(w, fn, rc) {
+					if f.NonNum && f.Rel == "==" && f.LV != nil && f.RV != nil && ((an.IsNilConst(f.LV) && isPolPtr(f.RV.Type())) || (an.IsNilConst(f.RV) && isPolPtr(f.LV.Type()))) {
 						under = true
 					}
 				}
 				if under {
 					continue
 				}
-				good, why = false, "answers false although a policy is configured"
+				if len(c26factsAtCase(w, fn, rc)) == 0 {
+					worse("bad", "answers false unconditionally although a policy is configured")
+				} else {
+					worse("unknown", "answers false under a condition that is not `policy == nil`")
+				}
 				continue
 			}
-			good, why = false, "answers with "+w.Term(v)
+			if k, ok := v.(*ssa.Const); ok && k.Value != nil {
+				worse("bad", "answers the constant "+k.Value.String())
+				continue
+			}
+			worse("unknown", "answers with "+w.Term(v)+", which is not interpreted")
 		}
-		c.Decide(good, "C26.R3", cons, w.Pos(fn.Pos()), "answers Policy.IsPeerSuspicious(argument); false only without a policy", "the peersync guard "+why+": peer-sync keeps answering and storing a quarantined peer")
+		switch verdict {
+		case "ok":
+			c.OK("C26.R3", cons, w.Pos(fn.Pos()), "answers Policy.IsPeerSuspicious(argument); false only without a policy")
+		case "bad":
+			c.Bad("C26.R3", cons, w.Pos(fn.Pos()), "the peersync guard "+why+": peer-sync keeps answering and storing a quarantined peer")
+		default:
+			c.Unknown("C26.R3", cons, w.Pos(fn.Pos()), "the peersync guard "+why)
+		}
 	}
 	c.AtLeast("C26.R3", "implementations of PeerGuard", nImpl, 1)
 
 	// the predicate reads the list the quarantine action appends to
 	c26listAgrees(c, polT)
+	// no other policy operation deletes the quarantine line
+	c26quarantineLineKept(c, polT)
 
 	// wiring
 	newPS := w.Func("peersync", "NewPeerSync")
@@ -945,8 +1727,30 @@ func c26r3(c *an.Check) {
 					good = false
 				}
 			}
-			c.Decide(good, "C26.R3", cons, w.Pos(ci.Pos()), "peersync and the swap services get the one policy object created from the policy file",
-				"peersync is not given the policy object (from policy.CreateFromFile) that the swap services use: quarantine entries made by the swap service are not seen by peer-sync")
+			// positively wrong: the argument is nil or comes (also) from another constructor call
+			positive := false
+			if pa := polArg(ci); pa == nil {
+				for _, x := range ci.Common().Args {
+					if an.IsNilConst(x) && isPolPtr(x.Type()) {
+						positive = true
+					}
+				}
+			} else {
+				for _, l := range w.Sources(pa, an.FlowOpts{}).Leaves {
+					if l.Kind == "zero" || (l.Kind == "call" && l.Call != nil && w.Info(l.Call).Static != create && w.Info(l.Call).Static != nil && w.FnRel(w.Info(l.Call).Static) == "policy") {
+						positive = true
+					}
+				}
+			}
+			msg := "peersync is not given the policy object (from policy.CreateFromFile) that the swap services use: quarantine entries made by the swap service are not seen by peer-sync"
+			switch {
+			case good:
+				c.OK("C26.R3", cons, w.Pos(ci.Pos()), "peersync and the swap services get the one policy object created from the policy file")
+			case positive:
+				c.Bad("C26.R3", cons, w.Pos(ci.Pos()), msg)
+			default:
+				c.Unknown("C26.R3", cons, w.Pos(ci.Pos()), "cannot trace the policy arguments of NewPeerSync and NewSwapServices to one policy.CreateFromFile call: "+msg)
+			}
 		}
 	}
 	c.AtLeast("C26.R3", "daemons that wire NewPeerSync", nMain, 2)
@@ -962,7 +1766,19 @@ func c26r3(c *an.Check) {
 			}
 			nG++
 			_, isParam := c26strip(ci.Common().Args[0]).(*ssa.Parameter)
-			c.Decide(isParam && isPolPtr(ci.Common().Args[0].Type()), "C26.R3", w.FuncName(fn)+" call NewPeerGuard policy", w.Pos(ci.Pos()), "guard built from the policy parameter", "the guard is not built from the policy handed to "+w.FuncName(fn)+": "+w.Term(ci.Common().Args[0]))
+			switch {
+			case isParam && isPolPtr(ci.Common().Args[0].Type()):
+				c.OK("C26.R3", w.FuncName(fn)+" call NewPeerGuard policy", w.Pos(ci.Pos()), "guard built from the policy parameter")
+			case an.IsNilConst(ci.Common().Args[0]):
+				c.Bad("C26.R3", w.FuncName(fn)+" call NewPeerGuard policy", w.Pos(ci.Pos()), "the guard is not built from the policy handed to "+w.FuncName(fn)+": "+w.Term(ci.Common().Args[0]))
+			default:
+				ssp := w.Sources(ci.Common().Args[0], an.FlowOpts{})
+				if ssp.OnlyFrom(func(s an.Src) bool { return s.Kind == "param" }) {
+					c.OK("C26.R3", w.FuncName(fn)+" call NewPeerGuard policy", w.Pos(ci.Pos()), "guard built from a value derived from the parameters")
+				} else {
+					c.Unknown("C26.R3", w.FuncName(fn)+" call NewPeerGuard policy", w.Pos(ci.Pos()), "cannot trace the policy given to the guard to the policy handed to "+w.FuncName(fn)+": "+strings.Join(ssp.Names(), ","))
+				}
+			}
 			// every PeerGuard-typed argument passed on in this function is that guard
 			for _, oc := range an.Calls(fn) {
 				if oc == ci {
@@ -975,7 +1791,15 @@ func c26r3(c *an.Check) {
 					ss := w.Sources(a, an.FlowOpts{})
 					fromGuard := ss.OnlyFrom(func(s an.Src) bool { return s.Kind == "call" && s.Call == ci.(*ssa.Call) })
 					callee := w.Info(oc).Name
-					c.Decide(fromGuard, "C26.R3", w.FuncName(fn)+" guard passed to "+strings.TrimPrefix(callee, "func:"), w.Pos(oc.Pos()), "receives the guard built from the policy", "receives "+strings.Join(ss.Names(), ",")+" instead of the guard built from the policy")
+					gcons := w.FuncName(fn) + " guard passed to " + strings.TrimPrefix(callee, "func:")
+					switch {
+					case fromGuard:
+						c.OK("C26.R3", gcons, w.Pos(oc.Pos()), "receives the guard built from the policy")
+					case ss.OnlyFrom(func(s an.Src) bool { return s.Kind == "zero" || s.Kind == "const" }):
+						c.Bad("C26.R3", gcons, w.Pos(oc.Pos()), "receives "+strings.Join(ss.Names(), ",")+" instead of the guard built from the policy")
+					default:
+						c.Unknown("C26.R3", gcons, w.Pos(oc.Pos()), "receives "+strings.Join(ss.Names(), ",")+"; cannot decide that it is the guard built from the policy")
+					}
 				}
 			}
 		}
@@ -992,7 +1816,12 @@ func c26r3(c *an.Check) {
 			}
 		}
 	}
-	c.Decide(kept, "C26.R3", w.FuncName(newPG)+" keeps policy", w.Pos(newPG.Pos()), "the guard stores the policy parameter", "the guard constructor does not store its policy parameter in the guard")
+	if kept {
+		c.OK("C26.R3", w.FuncName(newPG)+" keeps policy", w.Pos(newPG.Pos()), "the guard stores the policy parameter")
+	} else {
+		// stored through a helper, an embedded struct, …: not interpreted
+		c.Unknown("C26.R3", w.FuncName(newPG)+" keeps policy", w.Pos(newPG.Pos()), "cannot see the guard constructor store its policy parameter in the guard's policy field")
+	}
 }
 
 // c26listAgrees: (*Policy).IsPeerSuspicious answers membership of its argument in
@@ -1008,6 +1837,7 @@ func c26listAgrees(c *an.Check, polT *types.Named) {
 	}
 	// the written key
 	keys := map[string]bool{}
+	uninterpretedLine := false
 	addKey := func(v ssa.Value) {
 		if f, ok := an.ConstString(v); ok {
 			if i := strings.Index(f, "="); i > 0 && (strings.TrimSpace(f[i+1:]) == "" || strings.TrimSpace(f[i+1:]) == "%s") {
@@ -1020,7 +1850,11 @@ func c26listAgrees(c *an.Check, polT *types.Named) {
 			switch y := in.(type) {
 			case *ssa.Call:
 				if w.Info(y).Name == "func:fmt.Sprintf" && len(y.Call.Args) > 0 {
-					addKey(y.Call.Args[0])
+					if f, ok := c26sprintfConst(y); ok {
+						addKey(ssa.NewConst(constant.MakeString(f), types.Typ[types.String]))
+					} else {
+						uninterpretedLine = true
+					}
 				}
 			case *ssa.BinOp:
 				if y.Op == token.ADD {
@@ -1047,13 +1881,18 @@ func c26listAgrees(c *an.Check, polT *types.Named) {
 		}
 	}
 	if field == "" {
+		if uninterpretedLine || strings.ContainsAny(key, "% ") {
+			c.Unknown("C26.R3", cons, w.Pos(add.Pos()), "the line written by the quarantine is not understood (key "+key+")")
+			return
+		}
 		c.Bad("C26.R3", cons, w.Pos(add.Pos()), "the key "+key+" written by the quarantine is not the ini name of a Policy field")
 		return
 	}
 	through := map[string]bool{}
 	for _, ci := range an.Calls(is) {
-		if n := w.Info(ci).Name; strings.HasPrefix(n, "func:slices.Contains") {
-			through[n] = true
+		info := w.Info(ci)
+		if info.Static != nil && !w.InModule(info.Static) && !strings.HasPrefix(info.Name, "func:(*sync.") {
+			through[info.Name] = true
 		}
 	}
 	got := map[string]bool{}
@@ -1077,9 +1916,26 @@ func c26listAgrees(c *an.Check, polT *types.Named) {
 		}
 	}
 	want := "Policy." + field
-	c.Decide(len(got) == 1 && got[want] && param && len(through) > 0, "C26.R3", cons, w.Pos(is.Pos()),
-		"membership of the argument in "+want+" (ini key "+key+")",
-		fmt.Sprintf("the quarantine is written under ini key %s = %s, but the predicate is computed from %v (argument used: %v): recorded peers are not recognised", key, want, sortedKeys(got), param))
+	otherList := false
+	uninterpreted := false
+	for g := range got {
+		switch {
+		case g == want:
+		case strings.HasPrefix(g, "Policy."):
+			otherList = true
+		default:
+			uninterpreted = true
+		}
+	}
+	msg := fmt.Sprintf("the quarantine is written under ini key %s = %s, but the predicate is computed from %v (argument used: %v): recorded peers are not recognised", key, want, sortedKeys(got), param)
+	switch {
+	case len(got) == 1 && got[want] && param:
+		c.OK("C26.R3", cons, w.Pos(is.Pos()), "membership of the argument in "+want+" (ini key "+key+")")
+	case (otherList || !got[want]) && !uninterpreted:
+		c.Bad("C26.R3", cons, w.Pos(is.Pos()), msg)
+	default:
+		c.Unknown("C26.R3", cons, w.Pos(is.Pos()), "cannot interpret how the predicate is computed: "+msg)
+	}
 }
 
 // c26RetVal resolves result #idx of a return through the `*t0 = v; rundefers;
@@ -1107,4 +1963,187 @@ func c26RetVal(r *ssa.Return, idx int) ssa.Value {
 		return last
 	}
 	return v
+}
+
+// c26sprintfConst substitutes the constant string arguments of a fmt.Sprintf call
+// whose verbs are all %s; the non-constant arguments stay as %s.
+func c26sprintfConst(call *ssa.Call) (string, bool) {
+	f, ok := an.ConstString(call.Call.Args[0])
+	if !ok || strings.Count(f, "%") != strings.Count(f, "%s") {
+		return "", false
+	}
+	if len(call.Call.Args) < 2 {
+		return f, strings.Count(f, "%") == 0
+	}
+	sl, ok := call.Call.Args[1].(*ssa.Slice)
+	if !ok {
+		return "", false
+	}
+	al, ok := sl.X.(*ssa.Alloc)
+	if !ok || al.Referrers() == nil {
+		return "", false
+	}
+	vals := map[int64]ssa.Value{}
+	for _, ref := range *al.Referrers() {
+		if ia, ok := ref.(*ssa.IndexAddr); ok && ia.Referrers() != nil {
+			i, isC := an.ConstInt(ia.Index)
+			for _, rr := range *ia.Referrers() {
+				if st, ok := rr.(*ssa.Store); ok && st.Addr == ia {
+					if _, dup := vals[i]; dup || !isC {
+						return "", false
+					}
+					vals[i] = st.Val
+				}
+			}
+		}
+	}
+	if len(vals) != strings.Count(f, "%s") {
+		return "", false
+	}
+	var sb strings.Builder
+	rest := f
+	for i := int64(0); ; i++ {
+		j := strings.Index(rest, "%s")
+		if j < 0 {
+			sb.WriteString(rest)
+			break
+		}
+		sb.WriteString(rest[:j])
+		rest = rest[j+2:]
+		v := vals[i]
+		if mi, ok := v.(*ssa.MakeInterface); ok {
+			v = mi.X
+		}
+		if cs, ok := an.ConstString(v); ok && !strings.Contains(cs, "%") {
+			sb.WriteString(cs)
+		} else {
+			sb.WriteString("%s")
+		}
+	}
+	return sb.String(), true
+}
+
+// c26quarantineLineKept: every rewrite of the policy file issued by a *Policy
+// method deletes lines matched on an ini key; a rewrite that is handed only the
+// bare pubkey (and whose helper knows no key either) deletes the peer's
+// suspicious_peers line together with whatever it meant to delete.
+func c26quarantineLineKept(c *an.Check, polT *types.Named) {
+	w := c.W
+	st, ok := polT.Underlying().(*types.Struct)
+	if !ok {
+		return
+	}
+	iniKeys := map[string]bool{}
+	for i := 0; i < st.NumFields(); i++ {
+		tag := reflect.StructTag(st.Tag(i))
+		k := tag.Get("ini-name")
+		if k == "" {
+			k = tag.Get("long")
+		}
+		if k != "" {
+			iniKeys[k] = true
+		}
+	}
+	rewrites := func(h *ssa.Function) bool {
+		if h == nil || !w.InModule(h) || h.Blocks == nil || h.Signature.Recv() != nil {
+			return false
+		}
+		for _, e := range w.Summary(h).Effects {
+			if e.Name == "func:os.WriteFile" || e.Name == "func:os.Rename" {
+				return true
+			}
+		}
+		return false
+	}
+	n := 0
+	for _, fn := range prodFuncs(w) {
+		if w.FnRel(fn) != "policy" || fn.Parent() != nil || fn.Signature.Recv() == nil || an.NamedOf(fn.Signature.Recv().Type()) == nil || an.NamedOf(fn.Signature.Recv().Type()).Obj() != polT.Obj() {
+			continue
+		}
+		for _, ci := range an.Calls(fn) {
+			call, isCall := ci.(*ssa.Call)
+			h := w.Info(ci).Static
+			if !isCall || !rewrites(h) {
+				continue
+			}
+			for _, a := range call.Call.Args {
+				bt, isB := a.Type().Underlying().(*types.Basic)
+				if !isB || bt.Kind() != types.String {
+					continue
+				}
+				if d := c26resolve(a, nil, 0); len(d.chain) == 1 && d.chain[0] == "Policy.path" {
+					continue
+				}
+				n++
+				cons := w.FuncName(fn) + " rewrite keeps the quarantine line"
+				line := ""
+				switch y := c26strip(a).(type) {
+				case *ssa.Const:
+					line, _ = an.ConstString(y)
+				case *ssa.Call:
+					if w.Info(y).Name == "func:fmt.Sprintf" {
+						line, _ = c26sprintfConst(y)
+					}
+				case *ssa.BinOp:
+					if y.Op == token.ADD {
+						line, _ = an.ConstString(y.X)
+					}
+				}
+				key := ""
+				if i := strings.Index(line, "="); i > 0 {
+					key = strings.TrimSpace(line[:i])
+				}
+				if iniKeys[key] {
+					c.OK("C26.R3", cons, w.Pos(ci.Pos()), "the deleted line is `"+key+"=…`: matched on the ini key (that the helper compares the whole line is C25.R3)")
+					continue
+				}
+				if _, bare := c26strip(a).(*ssa.Parameter); !bare {
+					c.Unknown("C26.R3", cons, w.Pos(ci.Pos()), "the line handed to "+w.FuncName(h)+" is not understood: "+w.Term(a))
+					continue
+				}
+				// bare parameter: does the helper know a key?
+				seen := map[*ssa.Function]bool{}
+				var keyConsts []string
+				var walk func(f *ssa.Function, depth int)
+				walk = func(f *ssa.Function, depth int) {
+					if f == nil || seen[f] || f.Blocks == nil || !w.InModule(f) || depth > 4 {
+						return
+					}
+					seen[f] = true
+					for _, b := range f.Blocks {
+						for _, in := range b.Instrs {
+							switch z := in.(type) {
+							case *ssa.MakeClosure:
+								if g, ok := z.Fn.(*ssa.Function); ok {
+									walk(g, depth+1)
+								}
+							case ssa.CallInstruction:
+								walk(w.Info(z).Static, depth+1)
+							}
+							for _, op := range in.Operands(nil) {
+								if *op == nil {
+									continue
+								}
+								if cs, ok := an.ConstString(*op); ok {
+									for k := range iniKeys {
+										if strings.Contains(cs, k) {
+											keyConsts = append(keyConsts, cs)
+										}
+									}
+								}
+							}
+						}
+					}
+				}
+				walk(h, 0)
+				if len(keyConsts) == 0 {
+					c.Bad("C26.R3", cons, w.Pos(ci.Pos()), "the rewrite is handed only the bare pubkey and "+w.FuncName(h)+" contains no ini key: it deletes every line of that peer, including its suspicious_peers line — an unrelated policy operation lifts the quarantine, also after a restart")
+				} else {
+					sort.Strings(keyConsts)
+					c.Unknown("C26.R3", cons, w.Pos(ci.Pos()), fmt.Sprintf("the rewrite is handed only the bare pubkey; %s contains the key constant(s) %v but how they enter the match is not analysed", w.FuncName(h), keyConsts))
+				}
+			}
+		}
+	}
+	c.AtLeast("C26.R3", "policy-file rewrites issued by *Policy methods", n, 1)
 }
